@@ -1,4 +1,164 @@
 import Cjet.Basic
+import Cjet.Evloop
+/-!
+Driver for component `evloop` (`src/linux/eventloop_epoll.c`; supports C05, C06, C11).
+Script on stdin, one op per line (the same script `harness/comp/evloop.c` reads):
+
+    reset                         fresh loop, no io_events, empty queues
+    ev <id> <rw|r|w|->            which of read_function / write_function of io_event <id> are non-NULL (default rw)
+    add <id> <ok|fail>            eventloop_epoll_add from outside the loop (`fail`: epoll_ctl fails)
+    remove <id>                   eventloop_epoll_remove from outside the loop (and free)
+    ans <C|A|R> <act>…            queue one callback answer: return code (continue / abort / event removed) and
+                                  actions in order: -<id> remove+free, +<id> add, !<id> add with failing epoll_ctl, S clear go_ahead
+    wait <id>:<hexmask> …         queue one epoll_wait result (ready list, possibly empty)
+    wait EINTR | wait ERR         queue an epoll_wait failure
+    run                           eventloop_epoll_run over the queued waits and answers (both queues are emptied afterwards)
+
+Observation lines:
+
+    RESET max=<CONFIG_MAX_EPOLL_EVENTS> in=<EPOLLIN> out=<EPOLLOUT>
+    EV <id> r=<0|1> w=<0|1>
+    ADD <id> ok|fail      REMOVE <id>      STOP
+    HARVEST n=<k> <id>:<mask>,…
+    CALL <id> read|write|error
+    RETCB C|A|R
+    EINTR   WAITERR   TERM
+    RET <rc>
+    STATE cur=<id|-> pend=<id|->:<mask>,…|- reg=<sorted ids>|- go=<0|1>     after every callback, after RET and after add/remove
+    LEFT answers=<n>
+-/
 namespace Cjet.Drv.Evloop
-def run (_args : List String) : IO UInt32 := pure 0
+
+open Cjet Cjet.Evloop
+
+structure St where
+  cfg : List (Nat × Bool × Bool) := []
+  loop : Loop := {}
+  waits : List Wait := []       -- newest first
+  answers : List Answer := []   -- newest first
+  nulling : Bool := true
+
+def St.params (st : St) : Params :=
+  { hasRead := fun x => match st.cfg.find? (·.1 == x) with | some c => c.2.1 | none => true
+    hasWrite := fun x => match st.cfg.find? (·.1 == x) with | some c => c.2.2 | none => true
+    nulling := st.nulling }
+
+def hexNat? (s : String) : Option Nat :=
+  if s.isEmpty then none else
+  s.toList.foldl (fun acc c => match acc, Hex.nibble? c with
+    | some a, some d => some (a * 16 + d)
+    | _, _ => none) (some 0)
+
+def hexOfNat (n : Nat) : String :=
+  String.ofList ((Nat.toDigits 16 n))
+
+def insertSorted (x : Nat) : List Nat → List Nat
+  | [] => [x]
+  | y :: ys => if x ≤ y then x :: y :: ys else y :: insertSorted x ys
+
+def sortNat (l : List Nat) : List Nat := l.foldr insertSorted []
+
+def commaOrDash (l : List String) : String := if l.isEmpty then "-" else ",".intercalate l
+
+def showEntry (e : Entry) : String :=
+  (match e.ev with | some x => toString x | none => "-") ++ ":" ++ hexOfNat e.mask.toNat
+
+def showState (L : Loop) : String :=
+  let cur := match L.current with | some x => toString x | none => "-"
+  s!"STATE cur={cur} pend={commaOrDash (L.pending.map showEntry)} reg={commaOrDash ((sortNat L.reg).map toString)} go={if L.goAhead then 1 else 0}"
+
+def showFn : Fn → String
+  | .read => "read" | .write => "write" | .error => "error"
+
+def showRet : Ret → String
+  | .cont => "C" | .abort => "A" | .removed => "R"
+
+def showEv : TEv → String
+  | .call x f => s!"CALL {x} {showFn f}"
+  | .removed x => s!"REMOVE {x}"
+  | .added x ok => s!"ADD {x} {if ok then "ok" else "fail"}"
+  | .stop => "STOP"
+  | .snap L => showState L
+  | .ret r => s!"RETCB {showRet r}"
+  | .harvest b => s!"HARVEST n={b.length} {commaOrDash (b.map fun p => showEntry ⟨some p.1, p.2⟩)}"
+  | .eintr => "EINTR"
+  | .waitErr => "WAITERR"
+  | .term => "TERM"
+  | .runRet rc => s!"RET {rc}"
+
+def parseAct (s : String) : Option Act :=
+  match s.toList with
+  | ['S'] => some .stop
+  | '-' :: ds => (String.ofList ds).toNat?.map Act.remove
+  | '+' :: ds => (String.ofList ds).toNat?.map (Act.add · true)
+  | '!' :: ds => (String.ofList ds).toNat?.map (Act.add · false)
+  | _ => none
+
+def parseRet (s : String) : Option Ret :=
+  match s with
+  | "C" => some .cont | "A" => some .abort | "R" => some .removed | _ => none
+
+def parseReady (s : String) : Option (Nat × Mask) :=
+  match s.splitOn ":" with
+  | [a, b] =>
+    match a.toNat?, hexNat? b with
+    | some x, some m => some (x, BitVec.ofNat 32 m)
+    | _, _ => none
+  | _ => none
+
+def stepLine (st : St) (line : String) : St × List String :=
+  let line := line.trimAscii.toString
+  if line.isEmpty || line.startsWith "#" then (st, []) else
+  match words line with
+  | ["reset"] =>
+    let st' : St := { nulling := st.nulling }
+    (st', [s!"RESET max={st'.params.maxEvents} in={hexOfNat EPOLLIN.toNat} out={hexOfNat EPOLLOUT.toNat}"])
+  | ["ev", id, fl] =>
+    match id.toNat? with
+    | some x =>
+      let r := fl.contains 'r'
+      let w := fl.contains 'w'
+      ({ st with cfg := (x, r, w) :: st.cfg }, [s!"EV {x} r={if r then 1 else 0} w={if w then 1 else 0}"])
+    | none => (st, ["ERROR bad id"])
+  | ["add", id, verdict] =>
+    match id.toNat? with
+    | some x =>
+      let a := addEv x (verdict == "ok") st.loop
+      ({ st with loop := a.1 }, [showEv (.added x a.2), showState a.1])
+    | none => (st, ["ERROR bad id"])
+  | ["remove", id] =>
+    match id.toNat? with
+    | some x =>
+      let L := removeEv st.params x st.loop
+      ({ st with loop := L }, [showEv (.removed x), showState L])
+    | none => (st, ["ERROR bad id"])
+  | "ans" :: r :: acts =>
+    match parseRet r, acts.mapM parseAct with
+    | some ret, some as => ({ st with answers := ⟨ret, as⟩ :: st.answers }, [])
+    | _, _ => (st, ["ERROR bad answer"])
+  | ["wait", "EINTR"] => ({ st with waits := .eintr :: st.waits }, [])
+  | ["wait", "ERR"] => ({ st with waits := .err :: st.waits }, [])
+  | "wait" :: ready =>
+    match ready.mapM parseReady with
+    | some b => ({ st with waits := .batch b :: st.waits }, [])
+    | none => (st, ["ERROR bad ready list"])
+  | ["run"] =>
+    let r := Cjet.Evloop.run st.params st.waits.reverse st.loop st.answers.reverse
+    ({ st with loop := { r.loop with goAhead := true }, waits := [], answers := [] },
+      r.trace.map showEv ++ [showState r.loop, s!"LEFT answers={r.script.length}"])
+  | _ => (st, ["ERROR unknown op"])
+
+def run (args : List String) : IO UInt32 := do
+  match args with
+  | [] =>
+    Cjet.runLines stepLine {}
+    return 0
+  | ["legacy"] =>
+    -- the code before commit 676ccd4 (no nulling of harvested entries); used by the tie's self-description only
+    Cjet.runLines stepLine { nulling := false }
+    return 0
+  | _ =>
+    IO.eprintln s!"drv_evloop: unknown arguments {args}"
+    return 2
+
 end Cjet.Drv.Evloop
